@@ -435,6 +435,49 @@ def mw_queries(rng, mw, pre, hist):
     return out
 
 
+def trainer_stage(ctx, kb, ctxs, tlds, kw, dist):
+    """The segmentation as a WHOLE trainer run produces it (run_trainer: pass 1 trains the multi-word detector, whatever
+    happens to it between the passes, pass 2 parses): the same oracle on the section lists of pass 2, 'seen n times'
+    counted on the passwords pass 1 read."""
+    import os
+    import trainer_io as T
+    rng = ctx.rng
+    sc = common.scratch()
+    vio = []
+    plain = [w for w in seg_gen.WORDS if 4 <= len(w) <= 8 and w.isascii() and w.isalpha()]
+    for j in range(ctx.scale(6, 40)):
+        pre, hist = seg_gen.gen_history(rng)
+        # a whole word seen at least threshold times whose two parts are too, and proper prefixes / extensions of it seen less often
+        a, b = rng.sample(plain, 2)
+        W = a + b
+        hist = list(hist) + [a] * 5 + [b] * rng.choice([5, 6]) + [W] * rng.choice([5, 7]) + [W[:-1]] * rng.choice([1, 2, 4]) \
+            + [W + "s"] * rng.choice([0, 1, 5]) + [W + "1", W.capitalize() + "!", b + a]
+        rng.shuffle(hist)
+        hist = [p for p in hist if p and "\n" not in p and "\r" not in p and not p.startswith("$HEX[")]
+        path = os.path.join(sc, "tr%d.txt" % j)
+        with open(path, "w", encoding="utf-8", newline="") as f:
+            f.write("\n".join(hist) + "\n")
+        mwp = None
+        if pre:
+            mwp = os.path.join(sc, "mw%d.txt" % j)
+            with open(mwp, "w", encoding="utf-8", newline="") as f:
+                f.write("\n".join(pre) + "\n")
+        rec = T.train_inprocess(path, "utf-8", os.path.join(sc, "TR%d" % j), coverage=0.6, multiword=mwp)
+        if not rec.ok or len(rec.seqs) < 2 or len(rec.sections) != len(rec.seqs[1]):
+            dist["trainer_runs_unusable"] += 1
+            continue
+        dist["trainer_runs"] += 1
+        dist["trainer_run_passwords"] += len(rec.seqs[1])
+        pre_read = [list(r.verif_seq) for r in rec.multiword_reader]
+        counts = spec_counts(pre_read[0] if pre_read else [], rec.seqs[0], kw)
+        v = oracle(kb, ctxs, tlds, kw, pre, rec.seqs[0], counts, None, rec.seqs[1], rec.sections, None, None)
+        for x in v:
+            x["sig"] = x["sig"].replace("C05:", "C05:trainer-run:", 1)
+            x["replay"] = {"pre": pre, "hist": rec.seqs[0], "pws": x["replay"]["pws"], "trainer_run": True}
+        vio += v
+    return vio
+
+
 def run(ctx):
     rng = ctx.rng
     kb = KB()
@@ -514,6 +557,7 @@ def run(ctx):
             name = "h%03d_%d" % (h, s0 // 400)
             shards.append((name, shard_source([(pre, hist)], cases[s0:s0 + 400])))
             shard_cases[name] = meta[s0:s0 + 400]
+    vio += trainer_stage(ctx, kb, ctxs, tlds, kw, dist)
     corr.append(("unicode-facts:generated-strings-within-pool-and-lower-charwise", facts_ok, ""))
     # negative control: one deliberately wrong expectation must be reported as a mismatch
     mw0 = make_detector([], [], kw)
@@ -536,7 +580,8 @@ def run(ctx):
             "digits, symbols, characters with unusual case mappings incl. U+0130) with truncation, case changes and stray "
             "characters, under %d generated multi-word training histories; every string is parsed by the real "
             "PCFGPasswordParser and checked by the direct oracle; distinct = base-structure shape of the returned section "
-            "list(s); non-trivial = at least two different label kinds (two detectors fired)" % n_hist)
+            "list(s); plus whole run_trainer runs (pass 1 trains the multi-word detector, pass 2 parses) on lists holding a frequent "
+            "compound, its frequent parts and rarer prefixes / extensions, same oracle on the section lists of pass 2; non-trivial = at least two different label kinds (two detectors fired)" % n_hist)
     dist["distinct_shapes"] = len(shapes_all)
     return {"evaluations": evaluations, "distinct_nontrivial": len(nontrivial_shapes), "rule": rule, "samples": samples,
             "dist": dict(dist), "corr": corr, "violations": [shrink(ctx, v) for v in dedup(vio)]}
@@ -595,6 +640,25 @@ def replay(ctx, data):
     C = trainer_seg.extract_data()
     kw = {"threshold": C["mw_threshold"], "min_len": C["mw_min_len"], "max_len": C["mw_max_len"]}
     pre, hist, pws = inp.get("pre", []), inp.get("hist", []), inp["pws"]
+    if inp.get("trainer_run"):
+        # replay of a whole trainer run: the list is trained again and the same oracle applied
+        import os
+        import trainer_io as T
+        sc = common.scratch()
+        path = os.path.join(sc, "tr.txt")
+        with open(path, "w", encoding="utf-8", newline="") as f:
+            f.write("\n".join(hist) + "\n")
+        mwp = None
+        if pre:
+            mwp = os.path.join(sc, "mw.txt")
+            with open(mwp, "w", encoding="utf-8", newline="") as f:
+                f.write("\n".join(pre) + "\n")
+        rec = T.train_inprocess(path, "utf-8", os.path.join(sc, "TR"), coverage=0.6, multiword=mwp)
+        if not rec.ok or len(rec.seqs) < 2 or len(rec.sections) != len(rec.seqs[1]):
+            return []
+        counts = spec_counts(pre, rec.seqs[0], kw)
+        v = oracle(kb, C["context_strings"], C["tld_list"], kw, pre, rec.seqs[0], counts, None, rec.seqs[1], rec.sections, None, None)
+        return [x for x in v if x["replay"]["pws"] == pws] or v
     mw = make_detector(pre, hist, kw)
     counts = spec_counts(pre, hist, kw)
     secs, counters, raised = run_impl(mw, pws)
